@@ -448,7 +448,14 @@ impl wire::Decode for ZeroBytes {
     fn decode<R: std::io::Read + ?Sized>(reader: &mut R) -> Result<Self, wire::Error> {
         let zeroes = u16::decode(reader)?;
         for _ in 0..zeroes {
-            _ = u8::decode(reader)?;
+            // Nb. Only the number of bytes is kept: accepting anything but zeroes here would
+            // make different encodings decode to the same message.
+            if u8::decode(reader)? != 0 {
+                return Err(wire::Error::from(io::Error::new(
+                    io::ErrorKind::InvalidData,
+                    "non-zero byte in zero-bytes payload",
+                )));
+            }
         }
         Ok(ZeroBytes::new(zeroes))
     }
